@@ -2,6 +2,8 @@ package route
 
 import (
 	"strings"
+
+	"github.com/gobwas/glob"
 )
 
 // matcher determines whether a host/path matches a route
@@ -22,7 +24,19 @@ func prefixMatcher(uri string, r *Route) bool {
 
 // globMatcher matches path to the routes' path using gobwas/glob.
 func globMatcher(uri string, r *Route) bool {
-	return r.Glob.Match(uri)
+	return globMatch(r.Glob, uri)
+}
+
+// globMatch reports whether s matches g. gobwas/glob compiles some
+// malformed patterns without error (e.g. "/{") and then panics while
+// matching. Such a pattern matches nothing.
+func globMatch(g glob.Glob, s string) (ok bool) {
+	defer func() {
+		if recover() != nil {
+			ok = false
+		}
+	}()
+	return g.Match(s)
 }
 
 // iPrefixMatcher matches path to the routes' path ignoring case
